@@ -254,9 +254,42 @@ __CPROVER_ensures(g_fin_calls == OLD(g_fin_calls) + 1 && g_fin_last == aio && g_
 ;
 
 /* =====================================================================
+ * Second contract for nni_lmq_resize: the text of modules/lmq/contracts.h (verified there by unit lmq_resize)
+ * plus ONE clause needed when the contract replaces the call (a replaced contract with a frees clause may
+ * deallocate nondeterministically): on failure the ring array is still allocated.  Verified against the real
+ * function by unit lmq_resize_keeps_ring of THIS module (loop invariants = those of modules/lmq).
+ * ===================================================================== */
+int vp_push_lmq_resize(nni_lmq *lmq, size_t cap)
+__CPROVER_requires(LMQ_SHAPE_PRE(lmq) && LMQ_WF_SCALAR(lmq))
+__CPROVER_requires(cap <= LMQ_MAXALLOC)
+__CPROVER_assigns(*lmq, g_msg_freed, g_msg_freed_at_j, g_free_calls, g_alloc_ok)
+__CPROVER_frees(lmq->lmq_alloc > 0: lmq->lmq_msgs)
+/* ADDED here (first, so that it is assumed before the clauses that read the old array): a failed resize keeps the ring array (the frees clause is not exercised) */
+__CPROVER_ensures((__CPROVER_return_value != 0 && __CPROVER_old(lmq->lmq_alloc) > 0) ==> !__CPROVER_was_freed(__CPROVER_old(lmq->lmq_msgs)))
+__CPROVER_ensures(__CPROVER_return_value == 0 || __CPROVER_return_value == NNG_ENOMEM)
+__CPROVER_ensures(LMQ_WF_SCALAR(lmq))
+__CPROVER_ensures(__CPROVER_return_value == 0 ==> __CPROVER_is_fresh(lmq->lmq_msgs, lmq->lmq_alloc * sizeof(nng_msg *)))
+/* failure: nothing changed, nothing released */
+__CPROVER_ensures(__CPROVER_return_value != 0 ==> (LMQ_UNCHANGED_GEOM(lmq) && lmq->lmq_len == __CPROVER_old(lmq->lmq_len) && lmq->lmq_get == __CPROVER_old(lmq->lmq_get) && lmq->lmq_put == __CPROVER_old(lmq->lmq_put) && g_msg_freed == __CPROVER_old(g_msg_freed)))
+__CPROVER_ensures((__CPROVER_return_value != 0 && g_k < lmq->lmq_len) ==> LMQ_VIEW(lmq, g_k) == __CPROVER_old(LMQ_VIEW(lmq, g_k)))
+/* success: new depth, the oldest min(len,cap) survive in order ... */
+__CPROVER_ensures(__CPROVER_return_value == 0 ==> (lmq->lmq_cap == cap && lmq->lmq_alloc >= 2 && lmq->lmq_alloc >= cap))
+__CPROVER_ensures(__CPROVER_return_value == 0 ==> lmq->lmq_len == VP_MIN(__CPROVER_old(lmq->lmq_len), cap))
+__CPROVER_ensures((__CPROVER_return_value == 0 && g_k < lmq->lmq_len) ==> LMQ_VIEW(lmq, g_k) == __CPROVER_old(LMQ_VIEW(lmq, g_k)))
+/* ... and only what no longer fits is discarded, whole, once each, from the tail end */
+__CPROVER_ensures(__CPROVER_return_value == 0 ==> g_msg_freed == __CPROVER_old(g_msg_freed) + (__CPROVER_old(lmq->lmq_len) - lmq->lmq_len))
+__CPROVER_ensures((__CPROVER_return_value == 0 && g_j >= __CPROVER_old(g_msg_freed) && g_j < g_msg_freed) ==> g_msg_freed_at_j == __CPROVER_old(LMQ_VIEW(lmq, cap + (g_j - g_msg_freed))))
+/* failure allocates nothing; success allocates exactly the new array */
+__CPROVER_ensures(g_alloc_ok == __CPROVER_old(g_alloc_ok) + (__CPROVER_return_value == 0 ? 1 : 0))
+__CPROVER_ensures(__CPROVER_return_value != 0 ==> g_free_calls == __CPROVER_old(g_free_calls))
+/* old heap array released exactly when there was one */
+__CPROVER_ensures(__CPROVER_return_value == 0 ==> (g_free_calls == __CPROVER_old(g_free_calls) + (__CPROVER_old(lmq->lmq_alloc) > 0 ? 1 : 0)))
+;
+
+/* =====================================================================
  * push0_set_send_buf_len (NNG_OPT_SENDBUF, 0..8192; real nni_copyin_int of src/core/options.c): new depth;
  * blocked senders are admitted into new room, oldest first, behind what is already buffered (send order kept,
- * nobody overtakes them).  nni_lmq_resize is REPLACED by its contract (modules/lmq, unit lmq_resize, grade P):
+ * nobody overtakes them).  nni_lmq_resize is REPLACED by the contract vp_push_lmq_resize above:
  * the messages a shrink discards are counted by that contract's ghost g_msg_freed.
  * ===================================================================== */
 #define SB_VAL (*(const int *) buf)
@@ -274,6 +307,7 @@ __CPROVER_requires(PUSH_GHOST_EQ)
 __CPROVER_requires(g_k < WQ->lmq_len ==> g_p == (void *) LMQ_VIEW(WQ, g_k))
 __CPROVER_assigns(*WQ, VP_PROTO_GHOST_LIST, VP_SYNC_GHOSTS, g_free_calls, g_alloc_ok, g_msg_freed, g_msg_freed_at_j)
 __CPROVER_assigns(g_qa.n > 0: g_qa.head->a_msg)
+__CPROVER_assigns(WQ->lmq_alloc != 0: __CPROVER_object_whole(WQ->lmq_msgs))
 __CPROVER_frees(WQ->lmq_alloc != 0: WQ->lmq_msgs)
 __CPROVER_ensures(VP_NO_LOCK_HELD && VP_AIOQS_OK && LMQ_WF_SCALAR(WQ) && PL_SAME)
 __CPROVER_ensures(t != NNI_TYPE_INT32 ==> RV == NNG_EBADTYPE)
@@ -297,9 +331,8 @@ __CPROVER_ensures(g_stable0 ==> PUSH_STABLE)
 __CPROVER_ensures(g_pipe_send_calls == OLD(g_pipe_send_calls) && g_pipe_close_calls == OLD(g_pipe_close_calls) && g_start_calls == OLD(g_start_calls))
 /* conservation as long as the buffered messages fit the new depth */
 __CPROVER_ensures(OLD(WQ->lmq_len) <= WQ->lmq_cap ==> (PUSH_HELD == g_held0 && g_msg_freed == OLD(g_msg_freed)))
-/* C15 relation re-established in every case */
+/* C15 relation kept in every case (grown: raised; shrunk to full with no ready pipe: cleared) */
 __CPROVER_ensures(g_wpoll0 ==> PUSH_WPOLL_INV)
-__CPROVER_ensures(SB_OKARG ==> PUSH_WPOLL_INV)
 #ifdef PUSH_SB_NOLOSS
 /* C06 "none lost ... for all send-buffer depths and resizes": an accepted (buffered) message is never discarded */
 __CPROVER_ensures(WQ->lmq_len >= OLD(WQ->lmq_len) && g_msg_freed == OLD(g_msg_freed))
